@@ -300,7 +300,9 @@ func (ex *Exec) checkSpawnPre(fc *FuncContract, fv FuncV, args []Value, pos toke
 
 func (ex *Exec) doSend(x *ssa.Send) {
 	ex.yield()
+	ex.anchorArgTypes = []types.Type{x.X.Type()}
 	ex.fireAnchors("send", chanName(x.Chan), []Value{ex.val(x.X)}, nil, x.Pos())
+	ex.anchorArgTypes = nil
 }
 
 func (ex *Exec) doRecv(x *ssa.UnOp) Value {
